@@ -12,7 +12,7 @@ class Contract(object):
                  modifies=(), invariants=None, inline=False, on_raise=None, raises_when=None,
                  may_raise_app=True, ghost=None, self_cls=None, trusted=False, external=False,
                  note=None, props=(), generator=False, pure=True, loop_bounds=None, carries=(),
-                 ensures_fn=None, defaults=None, post_names=None, variants=None, definitions=None, unfold_depth=1):
+                 ensures_fn=None, defaults=None, post_names=None, variants=None, definitions=None, unfold_depth=1, comprehensions=None):
         self.file, self.qualname = file, qualname
         self.params = OrderedDict(params or [])
         self.requires = requires or (lambda v: [])
@@ -33,12 +33,14 @@ class Contract(object):
         self.ghost = ghost or {}
         self.definitions = definitions     # lambda: [definitional axioms of opaque spec functions revealed inside this function only]
         self.unfold_depth = unfold_depth
+        self.comprehensions = comprehensions or {}   # ordinal -> (SpecSeq, lambda v: [params])  list comprehension over a symbolic list = that spec sequence
         self.key = (file, qualname)
 
 class ClassDecl(object):
     """field table of a repository class: attribute name -> type descriptor"""
-    def __init__(self, file, name, fields, bases=(), invariant=None):
+    def __init__(self, file, name, fields, bases=(), invariant=None, pyname=None):
         self.file, self.name, self.fields, self.bases = file, name, dict(fields), tuple(bases)
+        self.pyname = pyname or name       # several sidecar views of one Python class may exist (e.g. EAMPotential with a dict of densities)
         self.invariant = invariant      # lambda o(z3 term): [z3 Bool] — established by __init__, fields never reassigned
 
 class Registry(object):
